@@ -686,7 +686,9 @@ impl EventGen for Tag {
                 } else {
                     // (defaults are for elements which are drawn; given to a <var> they
                     // would be taken for variable assignments)
-                    if !matches!(el.name.as_str(), "var" | "config") {
+                    // (... and to a <reuse> for locals of its instance, which gets the
+                    // defaults itself)
+                    if !matches!(el.name.as_str(), "var" | "config" | "reuse") {
                         context.apply_defaults(&mut el);
                     }
                     el.generate_events(context)?
